@@ -6,7 +6,9 @@ COOKIE = {"pkg": "pkg/sessions/cookie", "overlay": "cookie"}
 PROPS = {
     "C09": {
         "drivers": [MAIN],
-        "rule": "cookies minted with SignedValue at issue times on a grid straddling each threshold "
+        "rule": "both session stores of the real proxy x lifetimes {90 s, 1 h, 168 h} x cookie-refresh {off, 30 s} x session ages "
+                "straddling cookie-expire by 1..3 s and the 5-minute future bound, plus Max-Age, store TTL and a refresh event; and: "
+                "cookies minted with SignedValue at issue times on a grid straddling each threshold "
                 "(cookie-expire, +5 min skew, zero) by 0..3 s for 6 lifetimes, plus random ages and odd "
                 "timestamp spellings; non-trivial = within 3 s of a threshold or an odd timestamp; "
                 "distinct = distinct model call",
@@ -17,7 +19,11 @@ PROPS = {
         "trusted_base": ["time.Time arithmetic assumed exact for |ts| < 2^60 (no int64 wrap in time.Unix)"],
         "level_text": "Theorems c09_window / c09_rejected_after_lifetime / c09_rejected_if_future hold for every MAC function, "
                       "cookie string, clock value and non-zero lifetime of the Gallina model of encryption.Validate (skew regenerated "
-                      "from source); the model is run against encryption.Validate on a threshold-straddling grid on every run.",
+                      "from source); c09_issue_time (the signed timestamp is the session's CreatedAt), c09_maxage / c09_maxage_seconds "
+                      "(Max-Age of every part = configured lifetime in seconds), c09_store_ttl; the model is run against "
+                      "encryption.Validate on a threshold-straddling grid and against both session stores of the real proxy (ages "
+                      "straddling cookie-expire and the 5-minute future bound, with and without cookie-refresh, Max-Age, store TTL, "
+                      "refresh resetting the age) on every run.",
         "level_note": "HMAC modelled as a function (table of true MACs in the correspondence); time.Time arithmetic assumed exact; "
                       "clock read before/after each call.",
     },
